@@ -55,4 +55,4 @@ class TTSplit(Generic[TK]):
         """
         Get the training data as a data frame.
         """
-        return self.train.interaction_matrix(format="pandas", field="all")
+        return self.train.interactions().pandas(ids=True)
